@@ -60,6 +60,15 @@ def plan(tier, seed):
         g = pick(rng, ["none", "none", "l1", "l2"])
         P.add("gm", n=int(rng.integers(2, 9)), cplx=bool(rng.random() < 0.5), g=g, cond="mid",
               frac=pick(rng, [1.0, 0.999]), acc=True, iters=600, x0="rand")
+    # denoising-type problems f = 1/2||x - b||^2 (identity operator) started exactly where
+    # grad f vanishes - at the data, or at 0 for zero data with a box that excludes 0 - while g
+    # still has to act: the first prox step must move the iterate
+    for i in range(30 if quick else 300):
+        P.add("gm", n=int(rng.integers(2, 9)), cplx=bool(i % 2 and i % 3 != 0),
+              g=pick(rng, ["l1", "l2", "box"]) if i % 3 else "box", cond="well", frac=pick(
+                  rng, [1.0, 0.999, 0.5]), acc=bool(rng.random() < 0.5),
+              iters=int(pick(rng, [30, 100])), x0="zero",
+              special="zero-data-box" if i % 3 == 0 else "start-at-data")
     for i in range(12 if quick else 60):
         P.add("nesterov", k=int(pick(rng, [20, 50, 100, 200])), acc=bool(i % 2 == 0),
               frac=pick(rng, [1.0, 0.999, 0.5]), L=float(10 ** rng.uniform(-1, 2)))
@@ -74,7 +83,9 @@ def plan(tier, seed):
               frac=pick(rng, [1.0, 0.9, 0.5]), ratio=float(10 ** rng.uniform(-1, 1)),
               start=pick(rng, ["zero", "rand", "saddle", "saddle"]),
               gamma=pick(rng, ["none", "none", "primal", "dual"]),
-              iters=int(pick(rng, [40, 120])), via=pick(rng, ["func", "linop"]))
+              iters=int(pick(rng, [40, 120])),
+              via=pick(rng, ["func", "linop"]) if i % 5 else pick(
+                  rng, ["identity", "identity-fn", "reshape", "transpose"]))
     for i in range(40 if quick else 400):
         P.add("pdhg-conv", n=int(rng.integers(2, 8)), m=int(rng.integers(8, 12)),
               cplx=bool(rng.random() < 0.5), gamma=pick(rng, ["none", "primal", "dual"]),
@@ -125,7 +136,17 @@ def run_gm(case):
     m = n + int(rng.integers(0, 4))
     M, y = lsq_instance(rng, m, n, cplx, case["cond"])
     g = make_g(rng, case["g"], n)
-    sig = "|".join(map(str, ["gm", case["g"], "c" if cplx else "r", case["cond"], case["frac"],
+    special = case.get("special")
+    if special:
+        M = np.eye(n, dtype=M.dtype)
+        y = y[:n].copy()
+        if special == "zero-data-box":
+            y = np.zeros(n, M.dtype)
+            lo = 0.2 + np.abs(rng.standard_normal(n))
+            g = ("box", lo, lo + 0.5 + np.abs(rng.standard_normal(n)))
+        elif g[0] == "box":
+            y = np.real(y)
+    sig = "|".join(map(str, ["gm", special or "", case["g"], "c" if cplx else "r", case["cond"], case["frac"],
                              "acc" if case["acc"] else "plain", case["x0"]]))
     wit = dict(case)
     xs, cert = OPT.solve_composite(M, y, g)
@@ -136,8 +157,10 @@ def run_gm(case):
     alpha = case["frac"] / L
     dt = np.complex128 if cplx else np.float64
     x0 = np.zeros(n, dt) if case["x0"] == "zero" else crandn(rng, [n], dt)
-    if g[0] == "box":
+    if g[0] == "box" and not special:
         x0 = np.minimum(np.maximum(x0, g[1]), g[2])          # F(x0) finite
+    if special == "start-at-data":
+        x0 = y.astype(dt).copy()          # grad f(x0) = x0 - b = 0 exactly
     x = x0.copy()
     lay = case["rs"][-1] % 3
     if lay == 1:                      # caller's x is a strided view; step is a NumPy scalar
@@ -239,6 +262,17 @@ def pdhg_setup(case, rng, g=None, M=None, y=None):
     import sigpy as sp
     n, m, cplx = case["n"], case["m"], case["cplx"]
     dt = np.complex128 if cplx else np.float64
+    via = case.get("via", "func")
+    if via in ("identity", "identity-fn", "reshape", "transpose"):
+        # denoising-type f(Ax) + g(x) with an operator whose adjoint hands back its argument
+        # (or a view of it): Identity, a pass-through function, Reshape, Transpose
+        m = case["m"] = n if via != "transpose" or n % 2 == 0 else n + 1
+        n = case["n"] = m
+        M = np.eye(n, dtype=dt)
+        if via == "transpose":
+            P_ = np.arange(n).reshape(2, n // 2).T.ravel()
+            M = np.eye(n, dtype=dt)[P_]
+        y = crandn(rng, [m], dt)
     if M is None:
         M, y = lsq_instance(rng, m, n, cplx, "well")
     nA = float(np.linalg.norm(M, 2))
@@ -255,12 +289,31 @@ def pdhg_setup(case, rng, g=None, M=None, y=None):
         Tv = Tv * np.sqrt(frac) / sc
         Sv = Sv * np.sqrt(frac) / sc
         tau, sigma = Tv.copy(), Sv.copy()
-    if case.get("via", "func") == "linop":
+    if via == "linop":
         Aop = sp.linop.MatMul([n, 1], M)
         A, AH = Aop, Aop.H
         shape_x, shape_u = [n, 1], [m, 1]
         if np.ndim(tau):
             tau, sigma = tau.reshape(n, 1), sigma.reshape(m, 1)
+    elif via in ("identity", "reshape", "transpose"):
+        if via == "identity":
+            Aop = sp.linop.Identity([n])
+            shape_x, shape_u = [n], [n]
+        elif via == "reshape":
+            Aop = sp.linop.Reshape([n, 1], [n])
+            shape_x, shape_u = [n], [n, 1]
+            if np.ndim(sigma):
+                sigma = sigma.reshape(n, 1)
+        else:
+            Aop = sp.linop.Transpose([2, n // 2])
+            shape_x, shape_u = [2, n // 2], [n // 2, 2]
+            if np.ndim(tau):
+                tau, sigma = tau.reshape(shape_x), sigma.reshape(shape_u)
+        A, AH = Aop, Aop.H
+    elif via == "identity-fn":
+        A = lambda v: v                        # noqa: E731
+        AH = lambda v: v                       # noqa: E731
+        shape_x, shape_u = [n], [n]
     else:
         A = lambda v: M @ v                    # noqa: E731
         AH = lambda v: M.conj().T @ v          # noqa: E731
@@ -273,7 +326,9 @@ def run_pdhg(case):
     import sigpy as sp
     rng = rng_for(case)
     n, m = case["n"], case["m"]
+    case = dict(case)
     M, y, nA, tau, sigma, Tv, Sv, A, AH, shape_x, shape_u, proxfc, dt = pdhg_setup(case, rng)
+    n, m = case["n"], case["m"]          # (identity-like operators force m = n)
     g = make_g(rng, case["g"], n)
     sig = "|".join(map(str, ["pdhg", case["g"], "c" if case["cplx"] else "r", case["steps"],
                              case["frac"], case["start"], case["gamma"], case["via"]]))
@@ -299,7 +354,8 @@ def run_pdhg(case):
             x0 = np.minimum(np.maximum(x0, g[1]), g[2])
     x = x0.reshape(shape_x).copy()
     u = u0.reshape(shape_u).copy()
-    if case["rs"][-1] % 3 == 1 and len(shape_x) == 1:     # strided views as caller arrays
+    if case["rs"][-1] % 3 == 1 and len(shape_x) == 1 and len(shape_u) == 1:
+        # strided views as caller arrays
         bx, bu = np.zeros(2 * n, dt), np.zeros(2 * m, dt)
         bx[::2], bu[::2] = x, u
         x, u = bx[::2], bu[::2]
